@@ -22,7 +22,7 @@ META = {
             "keep-alives of two backends and replies with known, repeated and unknown ids) are replayed on the "
             "live proxy with scripted fake backends; concurrent bursts and concurrently running reply handlers "
             "(exported forwardKeepAlive, real connections; gate points hold them until all are at the consume "
-            "step, and again before the backend write) cover 'even under concurrent handling'. The recorded "
+            "step, between the pending-id lookup and its removal, and again before the backend write) cover 'even under concurrent handling'. The recorded "
             "sends, replies and arrivals are validated by TLC.",
     "design_ref": "DESIGN.md section 4, C18",
     "level_note": "Only the 'only if / at most once / otherwise dropped' direction is judged, as stated; that matching "
